@@ -299,8 +299,8 @@ theorem ticks_info (s : State) (hd : (s.mods.map (·.uid)).Nodup) :
     InfoTo s (fun _ => False) s (ticks cfg s) := by
   unfold ticks
   have h1 : InfoTo s (fun _ => False) s
-        (if cfg.timing && s.now - s.tTiming > 900 then { sendTiming cfg s with tTiming := s.now } else s) ∧
-      Pres s (if cfg.timing && s.now - s.tTiming > 900 then { sendTiming cfg s with tTiming := s.now } else s) := by
+        (if cfg.timing && s.now - s.tTiming > cfg.pTiming then { sendTiming cfg s with tTiming := s.now } else s) ∧
+      Pres s (if cfg.timing && s.now - s.tTiming > cfg.pTiming then { sendTiming cfg s with tTiming := s.now } else s) := by
     split
     · unfold sendTiming
       dsimp only
@@ -309,11 +309,11 @@ theorem ticks_info (s : State) (hd : (s.mods.map (·.uid)).Nodup) :
       refine ⟨infoTo_trans (infoTo_trans i1 (infoTo_fwd cfg s _ _ _ (by simp [mgrFrame, isInfo]))) (infoTo_same rfl),
         (p1.trans (fwdTop_presAny cfg _ _)).trans (pres_stats rfl rfl rfl rfl rfl rfl rfl)⟩
     · exact ⟨infoTo_refl _ _ s, Pres.refl s⟩
-  generalize (if cfg.timing && s.now - s.tTiming > 900 then { sendTiming cfg s with tTiming := s.now } else s) = s1 at h1
+  generalize (if cfg.timing && s.now - s.tTiming > cfg.pTiming then { sendTiming cfg s with tTiming := s.now } else s) = s1 at h1
   obtain ⟨i1, p1⟩ := h1
   dsimp only
-  have h2 : InfoTo s (fun _ => False) s1 (if s1.now - s1.tTraffic > 1000 then sendTraffic cfg s1 else s1) ∧
-      Pres s1 (if s1.now - s1.tTraffic > 1000 then sendTraffic cfg s1 else s1) := by
+  have h2 : InfoTo s (fun _ => False) s1 (if s1.now - s1.tTraffic > cfg.pTraffic then sendTraffic cfg s1 else s1) ∧
+      Pres s1 (if s1.now - s1.tTraffic > cfg.pTraffic then sendTraffic cfg s1 else s1) := by
     split
     · unfold sendTraffic
       dsimp only
@@ -326,7 +326,7 @@ theorem ticks_info (s : State) (hd : (s.mods.map (·.uid)).Nodup) :
       obtain ⟨p, _, rfl⟩ := List.mem_map.mp hf
       simp [mgrFrame, trafficBody, isInfo]
     · exact ⟨infoTo_refl _ _ s1, Pres.refl s1⟩
-  generalize (if s1.now - s1.tTraffic > 1000 then sendTraffic cfg s1 else s1) = s2 at h2
+  generalize (if s1.now - s1.tTraffic > cfg.pTraffic then sendTraffic cfg s1 else s1) = s2 at h2
   obtain ⟨i2, p2⟩ := h2
   refine infoTo_trans (infoTo_trans i1 i2) ?_
   split
